@@ -96,7 +96,13 @@ def _child(ob_name, tier, seed, conn):
             tb_files = [fr.filename for fr in traceback.extract_tb(e.__traceback__)]
             repo = os.environ.get("EMINUS_REPO", "/repo")
             in_traced_code = bool(tb_files) and (tb_files[-1].startswith(repo) or tb_files[-1].startswith("<"))
-            if type(e).__name__ in ("OutsideSubset", "Undecided") or (
+            if in_traced_code and getattr(REGISTRY.get(ob_name), "engine", "") == "B" and isinstance(e, Exception) and type(e).__name__ not in ("OutsideSubset", "Undecided"):
+                # a bounded NATIVE stand-in feeds real arrays to the real code: an exception raised inside the repository code is a failure of the
+                # code on a concrete input (it does not raise on the unchanged tree), reported with the exception as the witness
+                res = Result(REFUTED, backend="native", witness=dict(raised=f"{type(e).__name__}: {str(e)[:300]}"), replayed=True,
+                             replay_info=dict(raised=f"{type(e).__name__}: {e}", traceback=traceback.format_exc()[-1500:]),
+                             detail=f"the code under check raises on the concrete input of this bounded stand-in: {type(e).__name__}: {str(e)[:300]}", time_s=time.time() - t0)
+            elif type(e).__name__ in ("OutsideSubset", "Undecided") or (
                     in_traced_code and isinstance(e, (TypeError, AttributeError, ValueError, IndexError, KeyError, NotImplementedError, ZeroDivisionError))):
                 # the code under check left the modelled subset of an engine and the obligation has no native fallback of its own:
                 # no proof on this tree - undecided, not a checker error
